@@ -313,3 +313,20 @@ func TestF11b_UnknownFormat(t *testing.T) {
 		t.Errorf("Text('x',0) of 0.001 = %q", got)
 	}
 }
+
+// F12b: the zero-sum rule with an aliased receiver
+func TestF12b_ZeroSumAlias(t *testing.T) {
+	x := new(decimal.Decimal)
+	z := new(decimal.Decimal).SetMode(decimal.ToNegativeInf)
+	z.Neg(z) // -0
+	z.Sub(x, z) // (+0) - (-0) = +0
+	if z.Signbit() {
+		t.Errorf("z=-0 (ToNegativeInf); z.Sub(+0, z) = -0, want +0")
+	}
+	z = new(decimal.Decimal).SetMode(decimal.ToNegativeInf)
+	z.Neg(z)
+	z.Add(z, x) // (-0) + (+0) = -0 under ToNegativeInf
+	if !z.Signbit() {
+		t.Errorf("z=-0 (ToNegativeInf); z.Add(z, +0) = +0, want -0")
+	}
+}
